@@ -379,6 +379,53 @@ def run_mozpath(chk, model):
         chk.correspond("GLOB-REGEX", gpats, gi, outs)
 
 
+# ------------------------------------------------- stars that are not a segment ---
+def run_adjacent(chk, model):
+    """`**` is a double star only as a whole path segment.  Two or three adjacent
+    stars with more text in the same segment (l10n/de/**.ftl, {l}**.ftl,
+    l10n/**-mac/a.ftl, l10n/de/***) are single stars: they stay inside one segment.
+    Expected results by construction of the pattern text, not by the parser."""
+    rng = chk.rng
+    reqs, impl, desc = [], [], []
+    for i in range(chk.n(400, 4000)):
+        loc = rng.choice(["de", "fr", "sr-Latn"])
+        head = rng.choice([("l10n/%s/" % loc, "l10n/%s/" % loc, []),
+                           ("{l}", "l10n/%s/" % loc, [("l", "l10n/{locale}/"), ("locale", loc)]),
+                           ("", "", []),
+                           ("{base}/", "b/", [("base", "b")]),
+                           ("a/x-", "a/x-", [])])
+        nstars = rng.choice([2, 2, 3])
+        after = rng.choice([".ftl", "-mac/a.ftl", "x", ".ftl/sub/f", "_*.ftl"]) if nstars == 2 else \
+            rng.choice(["", ".ftl", "/a.ftl"])
+        pat = head[0] + "*" * nstars + after
+        fills = [rng.choice(["", "a", "q.b", "-", "mac"]) for _ in range(nstars + after.count("*"))]
+        it = iter(fills)
+        body = "".join(next(it) for _ in range(nstars))
+        tail = "".join(next(it) if ch == "*" else ch for ch in after)
+        good = head[1] + body + tail
+        side = (pat, head[2], None)
+        extra = [head[1] + "x/" + body + tail, head[1] + body + "/y" + tail if tail else head[1] + body + "/y",
+                 head[1] + "x/y/" + body + tail]
+        sx = ml.side_sx(side)
+        for kind, path in [("filled", good)] + [("extra-dir", e) for e in extra]:
+            chk.count(("adjacent", side, path))
+            chk.hist("adjacent", kind)
+            got = ml.impl_match(side, path)
+            desc.append((side, path))
+            impl.append(got)
+            reqs.append((2, sx + [canon(path)]))
+            if kind == "filled":
+                okm, d = ml.try_match(chk, side, path, "adjacent-stars-not-matched")
+                if okm and (d is None or "".join(d.get("s%d" % (k + 1)) or "" for k in range(nstars)) != body):
+                    chk.fail("adjacent-stars-not-matched", {"side": side, "path": path}, {"got": d})
+            elif path.count("/") != good.count("/") and got[0] == 0 and got[1]:
+                chk.fail("star-matched-separator", {"side": side, "path": path, "filled": good},
+                         {"got": ml.mk(side).match(path)})
+    if model:
+        outs = model.call(reqs)
+        chk.correspond("ADJACENT-STARS", desc, impl, outs)
+
+
 def run(chk, runner_ok):
     rng = chk.rng
     model = Model("C12") if runner_ok else None
@@ -387,6 +434,7 @@ def run(chk, runner_ok):
     run_views(chk, model, [ml.gen_case(rng) for _ in range(chk.n(2500, 18000))], "VIEWS")
     run_views(chk, model, [ml.gen_case(rng, loose=True) for _ in range(chk.n(1500, 10000))], "VIEWS-loose")
     ml.run_stateful(chk, model, chk.n(500, 5000))
+    run_adjacent(chk, model)
     run_expand(chk, model)
     run_android(chk, model)
     run_mozpath(chk, model)
